@@ -1,4 +1,5 @@
 import LentilVerif.Model.PropSeg
+import LentilVerif.Model.PlaneTilt
 import LentilVerif.Lemmas.PlaneAlg
 import LentilVerif.Lemmas.PropLinear
 import LentilVerif.Lemmas.ChainExtents
@@ -202,6 +203,72 @@ theorem propagate_linear_emb (A B : List (Fld K)) (hA : ∀ f ∈ A, 0 < f.arr.s
       simp only [e]
       rw [sumList_all_zero A _ (fun _ _ => rfl), sumList_all_zero B _ (fun _ _ => rfl)]
 
+/-- the common-shift propagation in closed form: one window for all fields (none: every field is dropped) -/
+theorem propagateDftCommon_eq (data : List (Fld K)) (αr αc : R) (S0 S1 P0 P1 os : Int) (mask : Option Extent)
+    (fix0 fix1 : Int) (sub0 sub1 : R) :
+    propagateDftCommon data αr αc S0 S1 P0 P1 os mask fix0 fix1 sub0 sub1 =
+      match dftWindow (outExtent (S0 * os) (S1 * os) mask) (P0 * os) (P1 * os) fix0 fix1 with
+      | none => []
+      | some (ish, isf, ps) => data.map fun f =>
+          { arr := dft2 f.arr αr αc ish.1 ish.2 (RealLike.ofInt ps.1 + sub0) (RealLike.ofInt ps.2 + sub1) f.o0 f.o1 true,
+            o0 := isf.1, o1 := isf.2 } := by
+  unfold propagateDftCommon propagateDft propagateField
+  simp only [List.filterMap_map, Gen.dftShapeOut, Gen.dftPropShapeOut, Function.comp]
+  cases hw : dftWindow (outExtent (S0 * os) (S1 * os) mask) (P0 * os) (P1 * os) fix0 fix1 with
+  | none =>
+    induction data with
+    | nil => rfl
+    | cons f fs ih => rw [List.filterMap_cons]; exact ih
+  | some w =>
+    obtain ⟨ish, isf, ps⟩ := w
+    simp only []
+    induction data with
+    | nil => rfl
+    | cons f fs ih => simp only [List.filterMap_cons, List.map_cons]; rw [ih]
+
+/-- **propagation with a common tilt shift and an output mask is additive in the embedded field**: as `propagate_linear_emb`,
+for builderB's `propagateDft` (the model the driver runs) when all fields carry the same shift `fix + sub` — whatever the
+shift, the output mask box, the output and propagation shapes and the sampling -/
+theorem propagate_common_linear (A B : List (Fld K)) (hA : ∀ f ∈ A, 0 < f.arr.s0 ∧ 0 < f.arr.s1) (hB : ∀ f ∈ B, 0 < f.arr.s0 ∧ 0 < f.arr.s1)
+    (htot : ∀ r c, sumList A (fun f => f.emb r c) = sumList B (fun f => f.emb r c))
+    (αr αc : R) (S0 S1 P0 P1 os : Int) (mask : Option Extent) (fix0 fix1 : Int) (sub0 sub1 : R) (r c : Int) :
+    sumList (propagateDftCommon A αr αc S0 S1 P0 P1 os mask fix0 fix1 sub0 sub1) (fun g => g.emb r c)
+      = sumList (propagateDftCommon B αr αc S0 S1 P0 P1 os mask fix0 fix1 sub0 sub1) (fun g => g.emb r c) := by
+  rw [propagateDftCommon_eq, propagateDftCommon_eq]
+  cases hw : dftWindow (outExtent (S0 * os) (S1 * os) mask) (P0 * os) (P1 * os) fix0 fix1 with
+  | none => rfl
+  | some w =>
+    obtain ⟨ish, isf, ps⟩ := w
+    simp only [sumL_nil, sumList_map]
+    obtain ⟨R0, H, C0, W, hbox⟩ := exists_box (A ++ B)
+    have hbA : ∀ f ∈ A, _ := fun f hf => hbox f (List.mem_append_left _ hf)
+    have hbB : ∀ f ∈ B, _ := fun f hf => hbox f (List.mem_append_right _ hf)
+    have hscale : ∀ (f : Fld K) (u v : Int),
+        (dft2 f.arr αr αc ish.1 ish.2 (RealLike.ofInt ps.1 + sub0) (RealLike.ofInt ps.2 + sub1) f.o0 f.o1 true).get u v
+        = (dft2 f.arr αr αc ish.1 ish.2 (RealLike.ofInt ps.1 + sub0) (RealLike.ofInt ps.2 + sub1) f.o0 f.o1 false).get u v
+          * CxLike.ofReal (RealLike.sqrt (RealLike.abs (αr * αc))) := by
+      intro f u v; unfold dft2; simp
+    by_cases hin : (arrayExtent ish.1 ish.2 isf.1 isf.2).inb r c = true
+    · have e : ∀ (f : Fld K), (Fld.mk (dft2 f.arr αr αc ish.1 ish.2 (RealLike.ofInt ps.1 + sub0) (RealLike.ofInt ps.2 + sub1) f.o0 f.o1 true) isf.1 isf.2).emb r c
+          = (dft2 f.arr αr αc ish.1 ish.2 (RealLike.ofInt ps.1 + sub0) (RealLike.ofInt ps.2 + sub1) f.o0 f.o1 false).get
+              (r - (arrayExtent ish.1 ish.2 isf.1 isf.2).rmin) (c - (arrayExtent ish.1 ish.2 isf.1 isf.2).cmin)
+            * CxLike.ofReal (RealLike.sqrt (RealLike.abs (αr * αc))) := by
+        intro f
+        rw [← hscale]
+        show embAt (arrayExtent ish.1 ish.2 isf.1 isf.2) _ r c = _
+        unfold embAt; rw [if_pos hin]
+      simp only [e]
+      rw [sumList_mul_right, sumList_mul_right,
+          sum_dft2_eq_boxDft A hA αr αc ish.1 ish.2 _ _ _ _ R0 H C0 W hbA,
+          sum_dft2_eq_boxDft B hB αr αc ish.1 ish.2 _ _ _ _ R0 H C0 W hbB,
+          boxDft_congr _ _ htot]
+    · have e : ∀ (f : Fld K), (Fld.mk (dft2 f.arr αr αc ish.1 ish.2 (RealLike.ofInt ps.1 + sub0) (RealLike.ofInt ps.2 + sub1) f.o0 f.o1 true) isf.1 isf.2).emb r c = 0 := by
+        intro f
+        show embAt (arrayExtent ish.1 ish.2 isf.1 isf.2) _ r c = _
+        unfold embAt; rw [if_neg hin]
+      simp only [e]
+      rw [sumList_all_zero A _ (fun _ _ => rfl), sumList_all_zero B _ (fun _ _ => rfl)]
+
 end propagate
 
 section coherent
@@ -269,6 +336,82 @@ theorem dftAlpha_unit_free (k dx0 dx1 du0 du1 wl z : ℝ) (os : Int) (hk : k ≠
 
 end units
 
+/-! ## Shared tilts stay common; constructed planes are well formed -/
+section tilts
+variable {K R : Type} [Zero K] [Mul K]
+
+/-- a plane without fitted tilts hands every incoming tilt list on unchanged: if all fields carry the list `t`, so do all
+products (per segment) — the premise "common shift" of `segmented_eq_monolithic_propagateDft` survives masked planes -/
+theorem common_tilts_plane (ph : R → K) (p : PlaneM K R) (t : List (TiltEl R)) (data : List (TFld K R))
+    (hd : ∀ ft ∈ data, ft.2 = t) : ∀ gt ∈ planeMultiplyT ph p [] data, gt.2 = t := by
+  intro gt hgt
+  unfold planeMultiplyT at hgt
+  rw [List.mem_flatMap] at hgt
+  obtain ⟨ft, hft, hgt⟩ := hgt
+  rw [List.mem_filterMap] at hgt
+  obtain ⟨⟨q, n⟩, _, hq⟩ := hgt
+  simp only [] at hq
+  cases hm : ft.1.mul q with
+  | none => rw [hm] at hq; simp at hq
+  | some g =>
+    rw [hm] at hq
+    simp only [Option.map_some, Option.some.injEq] at hq
+    rw [← hq]
+    simp only [List.getD_eq_getElem?_getD, List.getElem?_nil, Option.getD_none, List.append_nil]
+    exact hd ft hft
+
+/-- a Tilt plane appends itself exactly once to every field's list, and acts on the data as the default plane does (identity,
+`C07.default_plane_identity`) — whatever the number of fields (segments) -/
+theorem common_tilts_tilt (ph : R → K) (one : K) (z : R) (e : TiltEl R) (t : List (TiltEl R)) (data : List (TFld K R))
+    (hd : ∀ ft ∈ data, ft.2 = t) :
+    (∀ gt ∈ tiltMultiplyT ph one z e data, gt.2 = t ++ [e]) ∧
+    (tiltMultiplyT ph one z e data).map Prod.fst = planeMultiply ph ⟨.scalar one, .scalar z, .scalar true⟩ (data.map Prod.fst) := by
+  refine ⟨?_, ?_⟩
+  · intro gt hgt
+    unfold tiltMultiplyT at hgt
+    rw [List.mem_map] at hgt
+    obtain ⟨ft, hft, rfl⟩ := hgt
+    rw [common_tilts_plane ph _ t data hd ft hft]
+  · unfold tiltMultiplyT
+    rw [List.map_map]
+    exact planeMultiplyT_data ph _ [] data
+
+end tilts
+
+section constructed
+variable {K R : Type}
+
+/-- **well-formedness from the masks alone**: when the bounding slices are the ones the model of `_plane_slice` /
+`boundary_slice` computes (`mkMask`), `SplitPlane.WF` needs no assumption about slices — only that the segment masks are
+pairwise disjoint with union `g0.m`, and that every mask (each segment's and the union) has two different set entries
+(i.e. is not a one-pixel mask: the scope exclusion of the known finding, now stated on the masks) -/
+theorem splitPlane_wf_of_masks (sp : SplitPlane K R)
+    (hl : mkMask sp.S0 sp.S1 (sp.l.map Seg.m) = some (.segs sp.S0 sp.S1 sp.l))
+    (h0 : mkMask sp.S0 sp.S1 [sp.g0.m] = some (.segs sp.S0 sp.S1 [sp.g0]))
+    (hdis : (sp.l.map Seg.m).Pairwise (fun a b => ∀ i j, ¬ (a i j = true ∧ b i j = true)))
+    (hM : ∀ i j, sp.g0.m i j = (sp.l.map Seg.m).any (fun m => m i j))
+    (htwo : ∀ g ∈ sp.g0 :: sp.l, ∃ i j i' j', 0 ≤ i ∧ i < sp.S0 ∧ 0 ≤ j ∧ j < sp.S1 ∧ 0 ≤ i' ∧ i' < sp.S0 ∧ 0 ≤ j' ∧ j' < sp.S1 ∧
+        g.m i j = true ∧ g.m i' j' = true ∧ (i ≠ i' ∨ j ≠ j')) :
+    sp.WF := by
+  have hcl := (C07.constructed_plane_covers sp.S0 sp.S1 (sp.l.map Seg.m) sp.S0 sp.S1 sp.l hl).2.2
+  have hc0 := (C07.constructed_plane_covers sp.S0 sp.S1 [sp.g0.m] sp.S0 sp.S1 [sp.g0] h0).2.2
+  have key : ∀ g : Seg, g.covers sp.S0 sp.S1 → (∃ i j i' j', 0 ≤ i ∧ i < sp.S0 ∧ 0 ≤ j ∧ j < sp.S1 ∧ 0 ≤ i' ∧ i' < sp.S0 ∧
+      0 ≤ j' ∧ j' < sp.S1 ∧ g.m i j = true ∧ g.m i' j' = true ∧ (i ≠ i' ∨ j ≠ j')) →
+      g.covers sp.S0 sp.S1 ∧ (g.s.r0 < g.s.r1 ∧ g.s.c0 < g.s.c1 ∧ ¬ (g.s.r1 - g.s.r0 = 1 ∧ g.s.c1 - g.s.c0 = 1)) := by
+    intro g hc ⟨i, j, i', j', a1, a2, a3, a4, b1, b2, b3, b4, m1, m2, hne⟩
+    have c1 := hc.2.2.2.2 i j a1 a2 a3 a4 m1
+    have c2 := hc.2.2.2.2 i' j' b1 b2 b3 b4 m2
+    exact ⟨hc, by omega, by omega, by omega⟩
+  refine ⟨?_, ?_, hdis, hM⟩
+  · intro g hg
+    exact key g (hcl g hg) (htwo g (List.mem_cons_of_mem _ hg))
+  · intro g hg
+    simp only [List.mem_cons, List.not_mem_nil, or_false] at hg
+    subst hg
+    exact key sp.g0 (hc0 sp.g0 (List.mem_cons_self ..)) (htwo sp.g0 (List.mem_cons_self ..))
+
+end constructed
+
 /-! ## End to end -/
 section endtoend
 variable {K R : Type} [Add R] [Sub R] [Mul R] [Neg R] [RealLike R] [NonAssocSemiring K] [CxLike K R]
@@ -302,26 +445,15 @@ theorem propagate_pos (data : List (Fld K)) (αr αc : R) (shapeOut propOut : In
       simp only [Extent.nrow, Extent.ncol]; omega
     · rw [dftWindow_none _ _ _ _ _ (by simpa using hint)] at hw; exact absurd hw (by simp)
 
-/-- **segmented = monolithic, end to end.** A fresh wavefront (one one-element field) passes a non-empty chain of planes;
-every plane is given twice, with its mask split into segments `l` (pairwise disjoint supports, bounding slices that cover
-them, possibly overlapping) and with the single union mask `g0` (`SplitPlane.WF`); then `propagate_dft` (tilt-free fields,
-no output mask) with any sampling and any output / propagation shape. Then at every sample of the output the complex
-`Wavefront.field` of the two descriptions agree, and so do the intensities (whenever `Wavefront.intensity` returns).
-All hypotheses are on the *input*: `WF` per plane, and `ExtOK` — computed from the bounding slices and shapes alone — says
-that no box and no intersection of boxes along the chain is a single pixel (the scope exclusion of the known finding
-KF-C03-one-pixel-segment). Composes `segments_sum`, `chain_distrib`, `propagate_linear`, C07 `intensity_eq_normSq_field`
-and C06 `reduce_total`/`reduce_pairwise_disjoint`. -/
-theorem segmented_eq_monolithic_end_to_end (ph : R → K) (w0 : Fld K) (h0 : w0.size1 = true)
+/-- the chain part of the end-to-end statement: after the same chain in both descriptions the total embedded field is the
+same at every pixel, and all fields have positive shapes. Hypotheses on the input only (`WF`, `ExtOK`). -/
+theorem chain_total_emb_eq {K R : Type} [NonAssocSemiring K] (ph : R → K) (w0 : Fld K) (h0 : w0.size1 = true)
     (s : SplitPlane K R) (ss : List (SplitPlane K R)) (hwf : ∀ x ∈ s :: ss, x.WF)
-    (hEseg : ExtOK (ss.map fun x => x.seg.boxes) s.seg.boxes) (hEmono : ExtOK (ss.map fun x => x.mono.boxes) s.mono.boxes)
-    (αr αc : R) (shapeOut propOut : Int × Int) (hpo : 0 < propOut.1 ∧ 0 < propOut.2) (nsq : K → K) (hn : nsq 0 = 0) (i j : Int)
-    (hi : 0 ≤ i ∧ i < shapeOut.1) (hj : 0 ≤ j ∧ j < shapeOut.2) :
-    let A := propagateDftNoTilt (chainMultiply ph ((s :: ss).map SplitPlane.seg) [w0]) αr αc shapeOut propOut
-    let B := propagateDftNoTilt (chainMultiply ph ((s :: ss).map SplitPlane.mono) [w0]) αr αc shapeOut propOut
-    (wfField 1 shapeOut.1 shapeOut.2 A).get i j = (wfField 1 shapeOut.1 shapeOut.2 B).get i j ∧
-    ∀ IA IB, wfIntensity 1 nsq shapeOut.1 shapeOut.2 A = some IA → wfIntensity 1 nsq shapeOut.1 shapeOut.2 B = some IB →
-      IA.get i j = IB.get i j := by
-  intro A B
+    (hEseg : ExtOK (ss.map fun x => x.seg.boxes) s.seg.boxes) (hEmono : ExtOK (ss.map fun x => x.mono.boxes) s.mono.boxes) :
+    (∀ r c, sumList (chainMultiply ph ((s :: ss).map SplitPlane.seg) [w0]) (fun g => g.emb r c)
+        = sumList (chainMultiply ph ((s :: ss).map SplitPlane.mono) [w0]) (fun g => g.emb r c)) ∧
+    (∀ f ∈ chainMultiply ph ((s :: ss).map SplitPlane.seg) [w0], 0 < f.arr.s0 ∧ 0 < f.arr.s1) ∧
+    (∀ f ∈ chainMultiply ph ((s :: ss).map SplitPlane.mono) [w0], 0 < f.arr.s0 ∧ 0 < f.arr.s1) := by
   have hsegok : ∀ x ∈ s :: ss, x.seg.ok := fun x hx => (hwf x hx).1
   have hmonook : ∀ x ∈ s :: ss, x.mono.ok := fun x hx => (hwf x hx).2.1
   -- side conditions of the chain theorem, from the input
@@ -362,6 +494,29 @@ theorem segmented_eq_monolithic_end_to_end (ph : R → K) (w0 : Fld K) (h0 : w0.
     fun f hf => (pos_iff_valid f).mpr (finS f hf).2
   have hposM : ∀ f ∈ chainMultiply ph ((s :: ss).map SplitPlane.mono) [w0], 0 < f.arr.s0 ∧ 0 < f.arr.s1 :=
     fun f hf => (pos_iff_valid f).mpr (finM f hf).2
+  exact ⟨hemb, hposS, hposM⟩
+
+/-- **segmented = monolithic, end to end.** A fresh wavefront (one one-element field) passes a non-empty chain of planes;
+every plane is given twice, with its mask split into segments `l` (pairwise disjoint supports, bounding slices that cover
+them, possibly overlapping) and with the single union mask `g0` (`SplitPlane.WF`); then `propagate_dft` (tilt-free fields,
+no output mask) with any sampling and any output / propagation shape. Then at every sample of the output the complex
+`Wavefront.field` of the two descriptions agree, and so do the intensities (whenever `Wavefront.intensity` returns).
+All hypotheses are on the *input*: `WF` per plane, and `ExtOK` — computed from the bounding slices and shapes alone — says
+that no box and no intersection of boxes along the chain is a single pixel (the scope exclusion of the known finding
+KF-C03-one-pixel-segment). Composes `segments_sum`, `chain_distrib`, `propagate_linear`, C07 `intensity_eq_normSq_field`
+and C06 `reduce_total`/`reduce_pairwise_disjoint`. -/
+theorem segmented_eq_monolithic_end_to_end (ph : R → K) (w0 : Fld K) (h0 : w0.size1 = true)
+    (s : SplitPlane K R) (ss : List (SplitPlane K R)) (hwf : ∀ x ∈ s :: ss, x.WF)
+    (hEseg : ExtOK (ss.map fun x => x.seg.boxes) s.seg.boxes) (hEmono : ExtOK (ss.map fun x => x.mono.boxes) s.mono.boxes)
+    (αr αc : R) (shapeOut propOut : Int × Int) (hpo : 0 < propOut.1 ∧ 0 < propOut.2) (nsq : K → K) (hn : nsq 0 = 0) (i j : Int)
+    (hi : 0 ≤ i ∧ i < shapeOut.1) (hj : 0 ≤ j ∧ j < shapeOut.2) :
+    let A := propagateDftNoTilt (chainMultiply ph ((s :: ss).map SplitPlane.seg) [w0]) αr αc shapeOut propOut
+    let B := propagateDftNoTilt (chainMultiply ph ((s :: ss).map SplitPlane.mono) [w0]) αr αc shapeOut propOut
+    (wfField 1 shapeOut.1 shapeOut.2 A).get i j = (wfField 1 shapeOut.1 shapeOut.2 B).get i j ∧
+    ∀ IA IB, wfIntensity 1 nsq shapeOut.1 shapeOut.2 A = some IA → wfIntensity 1 nsq shapeOut.1 shapeOut.2 B = some IB →
+      IA.get i j = IB.get i j := by
+  intro A B
+  obtain ⟨hemb, hposS, hposM⟩ := chain_total_emb_eq ph w0 h0 s ss hwf hEseg hEmono
   -- propagation is additive in the embedded field
   have htot : ∀ r c, sumList A (fun g => g.emb r c) = sumList B (fun g => g.emb r c) :=
     fun r c => propagate_linear_emb _ _ hposS hposM hemb αr αc shapeOut propOut r c
@@ -369,6 +524,57 @@ theorem segmented_eq_monolithic_end_to_end (ph : R → K) (w0 : Fld K) (h0 : w0.
   · rw [C07.field_eq_sum _ _ A i j hi hj, C07.field_eq_sum _ _ B i j hi hj, htot]
   · intro IA IB hIA hIB
     exact (views_depend_on_total nsq hn _ _ A B (propagate_pos _ αr αc shapeOut propOut ⟨by omega, by omega⟩ hpo) (propagate_pos _ αr αc shapeOut propOut ⟨by omega, by omega⟩ hpo)
+      htot IA IB hIA hIB i j hi hj).2
+
+/-- every output field of the common-shift propagation has a positive shape -/
+theorem propagate_common_pos (data : List (Fld K)) (αr αc : R) (S0 S1 P0 P1 os : Int) (mask : Option Extent)
+    (fix0 fix1 : Int) (sub0 sub1 : R)
+    (hoe : (outExtent (S0 * os) (S1 * os) mask).rmin ≤ (outExtent (S0 * os) (S1 * os) mask).rmax ∧
+           (outExtent (S0 * os) (S1 * os) mask).cmin ≤ (outExtent (S0 * os) (S1 * os) mask).cmax)
+    (hP : 0 < P0 * os ∧ 0 < P1 * os) :
+    ∀ g ∈ propagateDftCommon data αr αc S0 S1 P0 P1 os mask fix0 fix1 sub0 sub1, 0 < g.arr.s0 ∧ 0 < g.arr.s1 := by
+  intro g hg
+  rw [propagateDftCommon_eq] at hg
+  by_cases hint : intersect (outExtent (S0 * os) (S1 * os) mask) (propExtent (P0 * os) (P1 * os) fix0 fix1) = true
+  · rw [dftWindow_some _ _ _ _ _ hoe hP hint] at hg
+    simp only [List.mem_map] at hg
+    obtain ⟨f, _, rfl⟩ := hg
+    have hvb : (propExtent (P0 * os) (P1 * os) fix0 fix1).rmin ≤ (propExtent (P0 * os) (P1 * os) fix0 fix1).rmax ∧
+        (propExtent (P0 * os) (P1 * os) fix0 fix1).cmin ≤ (propExtent (P0 * os) (P1 * os) fix0 fix1).cmax := by
+      unfold propExtent; rw [arrayExtent_eq]; simp only; omega
+    have hv := intersectionExtent_valid _ _ hoe hvb hint
+    show 0 < (intersectionExtent _ _).nrow ∧ 0 < (intersectionExtent _ _).ncol
+    simp only [Extent.nrow, Extent.ncol]; omega
+  · rw [dftWindow_none _ _ _ _ _ (by simpa using hint)] at hg; simp at hg
+
+/-- **segmented = monolithic, end to end, through the propagation model the driver runs** (builderB's `propagateDft`:
+generated window block `Gen.dftWindow`, generated output shapes): as `segmented_eq_monolithic_end_to_end`, but the fields may
+carry a common tilt shift `fix + sub` of any size (Tilt planes shared by all segments, `Wavefront(tilt=…)`) and
+`propagate_dft` may be given an output mask (its bounding box `mask`), any output shape, propagation shape and oversampling.
+The two descriptions then give the same `Wavefront.field` and intensity at every output sample. -/
+theorem segmented_eq_monolithic_propagateDft (ph : R → K) (w0 : Fld K) (h0 : w0.size1 = true)
+    (s : SplitPlane K R) (ss : List (SplitPlane K R)) (hwf : ∀ x ∈ s :: ss, x.WF)
+    (hEseg : ExtOK (ss.map fun x => x.seg.boxes) s.seg.boxes) (hEmono : ExtOK (ss.map fun x => x.mono.boxes) s.mono.boxes)
+    (αr αc : R) (S0 S1 P0 P1 os : Int) (mask : Option Extent) (fix0 fix1 : Int) (sub0 sub1 : R)
+    (hoe : (outExtent (S0 * os) (S1 * os) mask).rmin ≤ (outExtent (S0 * os) (S1 * os) mask).rmax ∧
+           (outExtent (S0 * os) (S1 * os) mask).cmin ≤ (outExtent (S0 * os) (S1 * os) mask).cmax)
+    (hP : 0 < P0 * os ∧ 0 < P1 * os) (nsq : K → K) (hn : nsq 0 = 0) (i j : Int)
+    (hi : 0 ≤ i ∧ i < S0 * os) (hj : 0 ≤ j ∧ j < S1 * os) :
+    let A := propagateDftCommon (chainMultiply ph ((s :: ss).map SplitPlane.seg) [w0]) αr αc S0 S1 P0 P1 os mask fix0 fix1 sub0 sub1
+    let B := propagateDftCommon (chainMultiply ph ((s :: ss).map SplitPlane.mono) [w0]) αr αc S0 S1 P0 P1 os mask fix0 fix1 sub0 sub1
+    (wfField 1 (S0 * os) (S1 * os) A).get i j = (wfField 1 (S0 * os) (S1 * os) B).get i j ∧
+    ∀ IA IB, wfIntensity 1 nsq (S0 * os) (S1 * os) A = some IA → wfIntensity 1 nsq (S0 * os) (S1 * os) B = some IB →
+      IA.get i j = IB.get i j := by
+  intro A B
+  obtain ⟨hemb, hposS, hposM⟩ := chain_total_emb_eq ph w0 h0 s ss hwf hEseg hEmono
+  have htot : ∀ r c, sumList A (fun g => g.emb r c) = sumList B (fun g => g.emb r c) :=
+    fun r c => propagate_common_linear _ _ hposS hposM hemb αr αc S0 S1 P0 P1 os mask fix0 fix1 sub0 sub1 r c
+  refine ⟨?_, ?_⟩
+  · rw [C07.field_eq_sum _ _ A i j hi hj, C07.field_eq_sum _ _ B i j hi hj, htot]
+  · intro IA IB hIA hIB
+    exact (views_depend_on_total nsq hn _ _ A B
+      (propagate_common_pos _ αr αc S0 S1 P0 P1 os mask fix0 fix1 sub0 sub1 hoe hP)
+      (propagate_common_pos _ αr αc S0 S1 P0 P1 os mask fix0 fix1 sub0 sub1 hoe hP)
       htot IA IB hIA hIB i j hi hj).2
 
 /-- non-vacuity: a chain of two planes, each split into the segments `g2`, `g3` (union `g23`), satisfies `WF` and `ExtOK` -/
